@@ -67,6 +67,24 @@ extern "C" void harness_lexer(void) {
     }
     VF_ASSERT(tok.start + tok.length == p, "a path token ends exactly at the first unescaped separator (line continuations and the blanks after them belong to it)");
   }
+  // in variable mode a string token (a binding's value) extends to the first unescaped end of line (or the end of input); '$' escapes the
+  // following byte - a newline too (CRLF and LFCR each count as one) - so "$$" before the end of line is a literal dollar, not a continuation
+  if (mode == (uint8_t)Lexer::LexingMode::VariableString && tok.tokenKind == Token::Kind::String) {
+    const char* p = tok.start; const char* e = buf + n;
+    while (p < e) {
+      unsigned char c = (unsigned char)*p;
+      if (c == '$') {
+        p++; if (p == e) break;
+        bool nl = *p == '\n' || *p == '\r';
+        if (nl && p + 1 < e && p[1] == ('\n' + '\r' - *p)) p++;
+        p++;
+        continue;
+      }
+      if (c == '\n' || c == '\r') break;
+      p++;
+    }
+    VF_ASSERT(tok.start + tok.length == p, "a binding's value ends exactly at the first unescaped end of line");
+  }
   // bytes 0x80-0xFF are ordinary characters: never a separator, never end of input
   if (tok.start < buf + n && (unsigned char)*tok.start >= 0x80) {
     VF_ASSERT(tok.tokenKind == Token::Kind::String || tok.tokenKind == Token::Kind::Unknown, "a high byte starts a string or an unknown token");
